@@ -45,6 +45,18 @@ def apply_body_rules(body, unit, c, f):
     body = re.sub(r'cast\(\s*f64::consts::PI\s*\*\s*2\.0\s*\)\s*\.unwrap\(\)', 'Sc::const_two_pi()', body)
     # R5 literal casts
     body = CAST_RE.sub(lit_const, body)
+    # R13 approx builder forms with explicit options
+    def opts(m):
+        kind, chain, op = m.group(1), m.group(2), m.group(3)
+        o = dict(re.findall(r'\.(epsilon|max_ulps|max_relative)\(((?:[^()]|\((?:[^()]|\([^()]*\))*\))*)\)', chain))
+        if 'max_relative' in o or kind == 'Relative':
+            raise ExtractError('approx Relative builder with options is not modelled')
+        eps = 'Some(%s)' % o['epsilon'] if 'epsilon' in o else 'None'
+        if kind == 'Ulps':
+            mu = 'Some(%s)' % o['max_ulps'] if 'max_ulps' in o else 'None'
+            return 'ulps_opts_%s(%s, %s, ' % (op, eps, mu)
+        return 'abs_diff_opts_%s(%s, ' % (op, eps)
+    body = re.sub(r'::approx::(Ulps|AbsDiff|Relative)::default\(\)((?:\s*\.(?:epsilon|max_ulps|max_relative)\((?:[^()]|\((?:[^()]|\([^()]*\))*\))*\))+)\s*\.(eq|ne)\(', opts, body)
     # R13 approx builder forms
     body = re.sub(r'::approx::Ulps::default\(\)\s*\.eq\(', 'ulps_default_eq(', body)
     body = re.sub(r'::approx::Ulps::default\(\)\s*\.ne\(', 'ulps_default_ne(', body)
